@@ -39,6 +39,9 @@ VK_MAIN()
                 for (int i = 0; i < VK_N; i++) {
                         struct msa_seq *x = m1->sequences[i], *y = m2->sequences[i];
                         VK_ASSERT(x->len == y->len && x->len == VK_L, "C16: lengths");
+                        VK_ASSERT(x->rank == i, "C01: the array entry point records the input position of each sequence");
+                        for (int k = 0; k < VK_L; k++) VK_ASSERT(x->seq[k] == bufs[i][k], "C01: the array entry point stores the caller's residues unchanged (same letters, same case)");
+                        VK_ASSERT(x->seq[VK_L] == 0, "C01: stored sequence is terminated");
                         for (int k = 0; k <= VK_L; k++) VK_ASSERT(x->seq[k] == y->seq[k] && x->gaps[k] == y->gaps[k] && x->gaps[k] == 0, "C16: residues and gap vectors");
                         int same = 1, ended = 0;
                         for (int k = 0; k < 8; k++) if (!ended) { if (x->name[k] != y->name[k]) same = 0; if (x->name[k] == 0 || y->name[k] == 0) ended = 1; }
